@@ -1,6 +1,7 @@
 """A6: timer-handle typestate (NONE / PENDING / FIRED) decided from trigger contexts and lifecycle facts."""
 from .model import AnalysisError
 from .terms import SELF, FAC, NONE, show, is_const, mentions, subterms
+from .fieldroles import no_interval
 from .catalogue import catalogue
 from .lifecycle import lifecycle, cancels, loop_over
 from .rules.common import contexts, where, short, types, cls_short
@@ -18,8 +19,22 @@ class Handles:
         self.eng = self.cat.eng
         self.ty = types(analysis)
         self.lc = lifecycle(analysis, cls)
-        self.ping = self.eng.init_heap.get((SELF, "_pingReq"))
+        # the keepalive bookkeeping object: the protocol attribute the constructor chain binds to a PINGREQ
+        self.ping_attr, self.ping = None, None
+        for (obj, field), val in self.eng.init_heap.items():
+            if obj == SELF and isinstance(val, tuple) and val and val[0] == "new" and val[1].split(".")[-1] == "PINGREQ":
+                self.ping_attr, self.ping = field, val
+        roles = analysis.prog.field_roles()
+        self.alarm_fields, self.loop_fields = roles["alarm"], roles["loop"]
         self._none_stores = None
+
+    def logical(self, field):
+        """'alarm' for an attribute that holds callLater handles, 'timer' for one that holds a LoopingCall."""
+        if field in self.alarm_fields:
+            return "alarm"
+        if field in self.loop_fields:
+            return "timer"
+        return field
 
     def can_register(self, reg):
         if not hasattr(self, "_canreg"):
@@ -31,7 +46,7 @@ class Handles:
         """Abstract owner of a handle field: ('ping',) ('conn',) ('win', registry) or None."""
         if obj is None:
             return None
-        if obj == self.ping or obj == ("attr", SELF, "_pingReq"):
+        if obj == self.ping or (self.ping_attr is not None and obj == ("attr", SELF, self.ping_attr)):
             return ("ping",)
         if obj == ("attr", SELF, "connReq"):
             return ("conn",)
@@ -64,7 +79,7 @@ class Handles:
         if isinstance(h, tuple) and h[0] == "attr":
             o = self.obj_location(h[1], tr)
             if o is not None:
-                return o + (h[2],)
+                return o + (self.logical(h[2]),)
         return None
 
     # ---- where is a location set to None ---------------------------------------------
@@ -76,13 +91,13 @@ class Handles:
                     if e.kind == "SETATTR" and e.a["val"] == NONE:
                         loc = self.obj_location(e.a["obj"], tr)
                         if loc is not None:
-                            out.setdefault(loc + (e.a["field"],), []).append((tr, e))
+                            out.setdefault(loc + (self.logical(e.a["field"]),), []).append((tr, e))
             # constructor chain
             for e in self.eng.init_events:
                 if e.kind == "SETATTR" and e.a["val"] == NONE:
                     loc = self.obj_location(e.a["obj"], None)
                     if loc is not None:
-                        out.setdefault(loc + (e.a["field"],), []).append((None, e))
+                        out.setdefault(loc + (self.logical(e.a["field"]),), []).append((None, e))
             self._none_stores = out
         return self._none_stores
 
@@ -154,7 +169,7 @@ class Handles:
                         loc = self.obj_location(st[0].a["obj"], tr)
                         key, func, _ = self.cat._target(e.a["target"])
                         if loc is not None and func is not None:
-                            arm_loc.setdefault(func.qual, set()).add(loc + (st[0].a["field"],))
+                            arm_loc.setdefault(func.qual, set()).add(loc + (self.logical(st[0].a["field"]),))
         for ent in self.cat.by_kind("TIMER"):
             locs = arm_loc.get(ent.func.qual, set())
             for loc in sorted(locs):
@@ -165,13 +180,12 @@ class Handles:
                     for e in evs:
                         if e.kind == "SETATTR":
                             l2 = self.obj_location(e.a["obj"], tr0)
-                            if l2 is not None and l2 + (e.a["field"],) == loc:
+                            if l2 is not None and l2 + (self.logical(e.a["field"]),) == loc:
                                 renewed = True
                     if renewed:
                         continue
                     facts = p.st.facts if p.st is not None else {}
-                    if any(isinstance(k, tuple) and k[0] == "truthy" and isinstance(k[1], tuple) and k[1][0] == "attr"
-                           and k[1][2] == "interval" and v is False for k, v in facts.items()):
+                    if no_interval(facts):
                         continue    # a request without interval object is never armed (checked correlation, C08)
                     aborted = any(e.kind == "CLOSE" and e.a["how"] == "abortConnection" for e in evs)
                     for tr in contexts(self.cat):
@@ -196,12 +210,12 @@ class Handles:
             idle_at = evs.index(st[-1]) if st else len(evs)
             pre = evs[:idle_at]
             for fld in ("timer", "alarm"):
-                h = ("attr", self.ping, fld)
                 cn = [e for e in pre if e.kind == "CANCEL" and self.handle_location(e.a["handle"], tr) == ("ping", fld)]
-                cl = [e for e in pre if e.kind == "SETATTR" and self.obj_location(e.a["obj"], tr) == ("ping",) and e.a["field"] == fld
+                cl = [e for e in pre if e.kind == "SETATTR" and self.obj_location(e.a["obj"], tr) == ("ping",) and self.logical(e.a["field"]) == fld
                       and e.a["val"] == NONE]
                 facts = tr.path.st.facts if tr.path.st is not None else {}
-                absent = facts.get(("truthy", h)) is False or facts.get(("nonnull", h)) is False
+                absent = any(isinstance(k, tuple) and k[0] in ("truthy", "nonnull") and v is False
+                             and self.handle_location(k[1], tr) == ("ping", fld) for k, v in facts.items())
                 out.append((tr, "keepalive %s stopped and cleared before IDLE" % fld, absent or (bool(cn) and bool(cl)), cn[0] if cn else None))
             for reg in TIMED:
                 if not self.can_register(reg):
